@@ -295,12 +295,14 @@ func marshalBlob(fr *frame, codec string, t types.Type, v value) []value {
 			break
 		}
 		if p == nil {
-			return []value{&blobCell{codec: codec, typ: t, snap: nil}}
+			fr.i.ps.blobSeq++
+			return []value{&blobCell{codec: codec, typ: t, snap: nil, id: fr.i.ps.blobSeq}}
 		}
 		t, v = pt.Elem(), *p
 	}
 	snap := deepCopy(copyMode{codec}, t, v, 0)
-	return []value{&blobCell{codec: codec, typ: t, snap: snap}}
+	fr.i.ps.blobSeq++
+	return []value{&blobCell{codec: codec, typ: t, snap: snap, id: fr.i.ps.blobSeq}}
 }
 
 // unmarshalBlob copies the snapshot into *dst (static type of dst is pointer to dt).
@@ -440,6 +442,76 @@ func convertShape(m copyMode, st, dt types.Type, v value, depth int) (value, boo
 			} else {
 				out.nsym++
 			}
+		}
+		return out, true
+	case *types.Struct:
+		// two struct types describing the same JSON document: fields are matched by their JSON
+		// names the way encoding/json does (exact, else case-insensitive); fields of the
+		// destination without a counterpart keep their zero value, extra source fields are dropped
+		su, ok := st.Underlying().(*types.Struct)
+		if !ok || m.codec != "json" {
+			return nil, false
+		}
+		if nt, isNamed := st.(*types.Named); isNamed && (hasMethod(nt, "MarshalJSON") || hasMethod(types.NewPointer(nt), "MarshalJSON") || hasMethod(nt, "MarshalText")) {
+			return nil, false
+		}
+		if nt, isNamed := dt.(*types.Named); isNamed && (hasMethod(types.NewPointer(nt), "UnmarshalJSON") || hasMethod(types.NewPointer(nt), "UnmarshalText")) {
+			return nil, false
+		}
+		jsonName := func(t *types.Struct, i int) (string, bool) {
+			f := t.Field(i)
+			tag := reflect.StructTag(t.Tag(i)).Get("json")
+			if !f.Exported() || tag == "-" || f.Embedded() {
+				return "", false
+			}
+			if k := strings.IndexByte(tag, ','); k >= 0 {
+				if strings.Contains(tag[k:], "string") {
+					return "", false
+				}
+				tag = tag[:k]
+			}
+			if tag == "" {
+				tag = f.Name()
+			}
+			return tag, true
+		}
+		for i := 0; i < su.NumFields(); i++ {
+			if su.Field(i).Embedded() {
+				return nil, false
+			}
+		}
+		src := v.(structure)
+		out := zero(dt).(structure)
+		for j := 0; j < du.NumFields(); j++ {
+			if du.Field(j).Embedded() {
+				return nil, false
+			}
+			dn, ok := jsonName(du, j)
+			if !ok {
+				continue
+			}
+			match := -1
+			for i := 0; i < su.NumFields(); i++ {
+				sn, ok := jsonName(su, i)
+				if !ok {
+					continue
+				}
+				if sn == dn {
+					match = i
+					break
+				}
+				if match < 0 && strings.EqualFold(sn, dn) {
+					match = i
+				}
+			}
+			if match < 0 {
+				continue
+			}
+			c, ok := convertShape(m, su.Field(match).Type(), du.Field(j).Type(), src[match], depth+1)
+			if !ok {
+				return nil, false
+			}
+			out[j] = c
 		}
 		return out, true
 	}
